@@ -128,11 +128,11 @@ theorem compileStmtH_hyb (env : CEnv) : (s : CStmt) → {st st' : HSt} → {eff 
       have := compileStmtsH_hyb env e h3
       simp only [chk_hyb, hybCountS] at *; omega
   | .for_ v cond 0 body, st, st', eff, b, h => by
-      obtain ⟨cc, s1, bs, bb, s3, h1, h3, _, _, rfl⟩ := invS_for0 h
+      obtain ⟨x0, cc, s1, bs, bb, s3, _, h1, h3, _, _, rfl⟩ := invS_for0 h
       have := compileExprH_hyb env cond h1; have := compileStmtsH_hyb env body h3
       simp only [chk_hyb, hybCountS, postState] at *; simp only [beq_self_eq_true, ↓reduceIte]; omega
   | .for_ v cond (k+1) body, st, st', eff, b, h => by
-      obtain ⟨cc, s1, stepEff, stepSrc, bs, bb, s3, h1, _, h3, _, _, rfl⟩ := invS_forK (Nat.succ_ne_zero k) h
+      obtain ⟨x0, cc, s1, stepEff, stepSrc, bs, bb, s3, _, h1, _, h3, _, _, rfl⟩ := invS_forK (Nat.succ_ne_zero k) h
       have := compileExprH_hyb env cond h1; have := compileStmtsH_hyb env body h3
       have hk : (k + 1 == 0) = false := by simp
       simp only [chk_hyb, hybCountS, hk] at *; simp only [Bool.false_eq_true, ↓reduceIte]; omega
